@@ -29,6 +29,7 @@ From CL Require Import Base.Sx Base.Res Base.Str Model.AddRemove Model.Channels
 From CL Require Proofs.C02BlocksDtd Proofs.DtdShape Proofs.DtdReparse Proofs.DtdView.
 From CL Require Proofs.C02BlocksRx Proofs.C02BlocksIni Proofs.IniShape Proofs.IniReparse Proofs.IniView.
 From CL Require Proofs.C02BlocksInc Proofs.IncShape Proofs.IncReparse Proofs.MergeHeadInstr.
+From CL Require Proofs.C02Po Proofs.C02BlocksPoRx Proofs.C02BlocksPo Proofs.PoReparse.
 From Coq Require Import Lia.
 Import ListNotations.
 Local Open Scope nat_scope.
@@ -788,4 +789,71 @@ Theorem C16_ws_fold_after_junk_refuted :
          102;111;117;114;32;61;32;86;105;101;114;10].
 Proof.
   eexists. split; [vm_compute; reflexivity|]. split; vm_compute; reflexivity.
+Qed.
+
+(* ---- the re-parse clause for PO -------------------------------------------------------------------
+   Reference and old localization are legal PO block lists with [PoReparse.pversion_ok m] (see
+   Properties/C15.v; keys are the meaning of msgid plus \x04 and the msgctxt meaning).  The raw
+   value of a PO message is its whole msgstr clause, the tail of the entity text, so
+   [props_wrap wrap] is Entity.wrap; new values are msgstr clauses ([legal_po_raw]: "msgstr" and
+   a non-empty list of quoted items).  Then the bytes are the text of a legal block list whose
+   entries are, up to object identity, the output entry list; walk_po yields that block list's
+   entries: no Junk, the kinds of the output list in order; the entities of the output list are
+   the reference keys with a value, in reference order. *)
+Theorem C16_reparse_po : forall m rbs obs wrap nd name txt,
+  PoReparse.pversion_ok m rbs -> PoReparse.pversion_ok m obs -> NoDup (map fst nd) ->
+  props_wrap wrap ->
+  (forall k raw, In (k, Some raw) nd -> PoReparse.legal_po_raw raw) ->
+  let R := number 0 (PoReparse.pcentries_of rbs) in
+  let L := number (length (PoReparse.pcentries_of rbs)) (PoReparse.pcentries_of obs) in
+  serialize wrap name R L nd = Ok txt ->
+  exists out bs,
+    serialize_entries wrap R L nd = Ok out /\ txt = concat (map c_text out) /\
+    map fst (krecs out) = filter (has_value L nd) (refkeys R) /\
+    Forall C02BlocksPo.legal_pblock bs /\ C02BlocksPo.padjacent_ok bs /\ C02BlocksPo.pfile_text bs = txt /\
+    map strip (PoReparse.pcentries_of bs) = map strip out /\
+    walk_po txt = Ok (C02BlocksPo.pentries_of bs) /\
+    map (fun e => PoReparse.ckind_of (e_kind e)) (C02BlocksPo.pentries_of bs) = map c_kind out /\
+    Forall (fun e => e_kind e <> KJunk) (C02BlocksPo.pentries_of bs).
+Proof. exact PoReparse.serialize_reparse_po. Qed.
+
+(* reference  msgid "a" msgstr "A" / # c / msgid "b" msgstr "B"    old  msgid "a" msgstr "l"    new {b: msgstr "n"} *)
+Definition pit (c : nat) : list C02BlocksPoRx.pitem := [C02BlocksPo.it [32] [C02Po.PPlain (N.of_nat c)]].
+Definition pm (k v : nat) : C02BlocksPo.pblock := C02BlocksPo.PEntity [] [] None (pit k) (A [10]) (pit v).
+Definition pnl : C02BlocksPo.pblock := C02BlocksPo.PBlank (A [10; 10]).
+Definition p_ref : list C02BlocksPo.pblock :=
+  [pm 97 65; pnl; C02BlocksPo.PComment [(35%N, A [32; 99])]; pnl; pm 98 66; pnl].
+Definition p_old : list C02BlocksPo.pblock := [pm 97 108; pnl].
+Definition p_raw : str := A [109;115;103;115;116;114; 32;34;110;34].
+
+Ltac pwsok_one :=
+  unfold PoReparse.pwsok;
+  first [ intros Hw; vm_compute in Hw; discriminate
+        | intros _ Hl; first [vm_compute; lia | exfalso; vm_compute in Hl; lia] ].
+Ltac pversion_ok_tac :=
+  split; [repeat constructor|]; split; [repeat constructor|];
+  split; [split; nodup_tac|]; split; [vm_compute; intuition (try discriminate; try lia)|];
+  unfold PoReparse.pcentries_of; cbn [PoReparse.pcents PropsShape.cflush app pm pnl];
+  repeat (apply Forall_cons; [pwsok_one|]); apply Forall_nil.
+
+Example C16_example_po_hyps :
+  PoReparse.pversion_ok 2 p_ref /\ PoReparse.pversion_ok 2 p_old /\ PoReparse.legal_po_raw p_raw.
+Proof.
+  split; [pversion_ok_tac|]. split; [pversion_ok_tac|].
+  exists (pit 110). split; vm_compute; reflexivity.
+Qed.
+
+Example C16_example_reparse_po :
+  exists txt es,
+    serialize wrap_props (s [102;46;112;111])
+              (number 0 (PoReparse.pcentries_of p_ref))
+              (number (length (PoReparse.pcentries_of p_ref)) (PoReparse.pcentries_of p_old))
+              [(A [98], Some p_raw)] = Ok txt /\
+    walk_po txt = Ok es /\
+    map e_kind es = [KEntity; KWhitespace; KComment; KWhitespace; KEntity; KWhitespace] /\
+    map (fun e => C02Blocks.opt_text txt (e_val e)) (filter (is_kind KEntity) es) =
+      [A [109;115;103;115;116;114; 32;34;108;34]; p_raw].
+Proof.
+  eexists. eexists. split; [vm_compute; reflexivity|]. split; [vm_compute; reflexivity|].
+  split; vm_compute; reflexivity.
 Qed.
